@@ -8,8 +8,8 @@ import (
 	"golang.org/x/tools/go/ssa"
 )
 
-// C10 — membership changes are serialized.
-func c10ConfChange(c *Check) {
+// C10.G — the propose-time gate for configuration changes.
+func c10Gate(c *Check) {
 	p := c.P
 	stepLeader := p.Func("raft", "stepLeader")
 	pendingF := p.Field("raft", "raft", "pendingConfIndex")
@@ -158,6 +158,29 @@ func c10ConfChange(c *Check) {
 	}
 	c.Result(nElem == 1, "C10.G", "single rewrite site of proposed entries", fnName(stepLeader), p.Pos(stepLeader.Pos()), "one store into m.Entries[i]", fmt.Sprint(nElem))
 
+}
+
+// C10 — membership changes are serialized.
+func c10ConfChange(c *Check) {
+	c10Gate(c)
+	p := c.P
+	stepLeader := p.Func("raft", "stepLeader")
+	pendingF := p.Field("raft", "raft", "pendingConfIndex")
+	appliedF := p.Field("raft", "raftLog", "applied")
+	_ = p.Field("raft", "raftLog", "committed")
+	raftLogF := p.Field("raft", "raft", "raftLog")
+	trkF := p.Field("raft", "raft", "trk")
+	cfgF := p.Field("tracker", "ProgressTracker", "Config")
+	votersF := p.Field("tracker", "Config", "Voters")
+	disableF := p.Field("raft", "raft", "disableConfChangeValidation")
+	changesF := p.Field("raftpb", "ConfChangeV2", "Changes")
+	lastIndex := p.Method("raft", "raftLog", "lastIndex")
+	entryT := p.Type("raftpb", "Entry")
+	entryNormal := p.ConstVal("raftpb", "EntryNormal")
+	if stepLeader == nil || pendingF == nil {
+		return
+	}
+	_, _, _, _, _, _, _, _ = appliedF, raftLogF, trkF, votersF, disableF, changesF, entryT, entryNormal
 	// --- C10.N: a new leader assumes its whole log may contain an unapplied change
 	becomeLeader := p.Method("raft", "raft", "becomeLeader")
 	reset := p.Method("raft", "raft", "reset")
@@ -300,10 +323,10 @@ func c10Transitions(c *Check) {
 	lfi := p.Info(leaveJ)
 	cc := lfi.Sym(leaveJ.Params[0])
 	for _, ret := range returnsOf(lfi) {
-		code := lfi.valueBF(ret.Results[0], 0)
+		code := lfi.valueBF(lfi.RetVal(ret, 0), 0)
 		// spec: transition == Auto && len(changes) == 0 ; the changes length atom is taken from the code
 		var lenSym *Sym
-		lfi.Sym(ret.Results[0]).Walk(func(x *Sym) {
+		lfi.RetSym(ret, 0).Walk(func(x *Sym) {
 			if x.K == KBuiltin && x.Name == "len" {
 				lenSym = x
 			}
@@ -408,7 +431,7 @@ func c10Hup(c *Check) {
 		{
 			ur0 := ufi.Sym(hasUnapplied.Params[0])
 			for _, ret := range returnsOf(ufi) {
-				v := ufi.Sym(ret.Results[0])
+				v := ufi.RetSym(ret, 0)
 				if v.K == KConst && v.C != nil && v.C.String() == "false" {
 					f := ufi.FactsAt(ret)
 					ok := f.ImpliesCmp(FieldOf(FieldOf(ur0, raftLogF), appliedF), ">=", FieldOf(FieldOf(ur0, raftLogF), committedF))
